@@ -46,10 +46,10 @@ Definition d_a2 (dflt : bool) : dec a2_in :=
 Definition e_opt {A} (e : A -> list Z) (o : option A) : list Z := match o with Some a => 1 :: e a | None => [0] end.
 Definition e_cls0 (c : cls) : list Z := e_cls (strip_ascii c).
 
-(* 402: -> find_first_char_class, then the theorem hypothesis lits_ok of the tree *)
+(* 402: -> find_first_char_class, then the theorem hypotheses lits_ok of the tree and cls_good_b of every exported class *)
 Definition run_ffcc_d (dflt : bool) (args : list Z) : list Z :=
   match d_a2 dflt args with
-  | Some (a, []) => e_opt e_cls0 (find_first_char_class (a2_cat a) (a2_sets a) (a2_tree a)) ++ e_bool (lits_ok (a2_tree a))
+  | Some (a, []) => e_opt e_cls0 (find_first_char_class (a2_cat a) (a2_sets a) (a2_tree a)) ++ e_bool (lits_ok (a2_tree a)) ++ e_bool (forallb cls_good_b (a2_sets a))
   | _ => bad_case
   end.
 
